@@ -17,6 +17,7 @@ import re
 from ..interp import Interp, Hooks, Budget
 from ..state import State, Obj, IntV, PtrV, NULL, MAXLEN
 from ..terms import Lin, ZERO
+from ..ir import int_bits
 from . import own
 from .c08 import string_scene, SliceHooks
 from .common import short, fn_loc, robust, congruent
@@ -28,6 +29,80 @@ EXPLANATION = ('per-iteration step summaries of the five searching loops by abst
 
 SEARCH_RE = re.compile(r'^_ST_PRIVATE::find_c([si])\(char const\*, unsigned long, char const\*, unsigned long\)')
 SEARCH1_RE = re.compile(r'^_ST_PRIVATE::find_c([si])\(char const\*, unsigned long, char\)')
+
+
+_SHAPE_CACHE = {}
+
+
+def search_core_shape(m, F, name):
+    """A library function that is a substring search by shape rather than by name: it returns a pointer, takes
+    (text, its length or its end, needle, needle length[, a mode flag]) and reaches both the character search and the
+    three-argument comparison.  Returns {'end': second parameter is an end pointer, 'mode': index of the flag or None} or None."""
+    key = (id(m), name)
+    if key in _SHAPE_CACHE:
+        return _SHAPE_CACHE[key]
+    r = None
+    if name in F.libset and m.has(name):
+        f = m.func(name)
+        tys = [p['ty'] for p in f.params]
+        d = f.dem
+        if f.ret == 'i8*' and len(tys) in (4, 5) and tys[0] == 'i8*' and tys[1] in ('i64', 'i8*') and tys[2] == 'i8*' and tys[3] == 'i64' \
+                and (len(tys) == 4 or tys[4] in ('i1', 'i8', 'i32')) and not SEARCH_RE.match(d):
+            seen, work, has_chr, has_cmp = set(), [(name, 0)], False, False
+            while work:
+                n_, depth = work.pop()
+                if n_ in seen or depth > 3:
+                    continue
+                seen.add(n_)
+                for (i, ts, kind) in F.calls.get(n_, ()):
+                    for t in ts:
+                        dt = m.dem(t)
+                        if SEARCH1_RE.match(dt) or t == 'memchr' or dt.startswith('std::char_traits<char>::find('):
+                            has_chr = True
+                        if re.match(r'^_ST_PRIVATE::compare_c[si]\(char const\*, char const\*, unsigned long\)', dt) or t in ('memcmp', 'bcmp') \
+                                or dt.startswith('std::char_traits<char>::compare('):
+                            has_cmp = True
+                        if t in F.libset:
+                            work.append((t, depth + 1))
+            if has_chr and has_cmp:
+                r = {'end': tys[1] == 'i8*', 'mode': 4 if len(tys) == 5 else None}
+    _SHAPE_CACHE[key] = r
+    return r
+
+
+def rejects_empty_needle(m, F, E, name, shape):
+    """True when the search core `name`, handed a needle of length 0, returns null on every path (it treats the empty needle
+    itself); False when some path can return a position; None when not decided."""
+    key = (id(m), name, 'empty')
+    if key in _SHAPE_CACHE:
+        return _SHAPE_CACHE[key]
+    from .c07 import SearchHooks
+    r = None
+    try:
+        I = Interp(m, F, E, SearchHooks(m, 'char'))
+        st = State()
+        st.rng['hsize'] = (0, MAXLEN)
+        ho = Obj('ext', Lin.atom('hsize') + 1)
+        ho.lazy = True
+        st.objs['HAY'] = ho
+        no = Obj('ext', Lin.const(1))
+        no.lazy = True
+        st.objs['NEEDLE0'] = no
+        f = m.func(name)
+        args = [PtrV('HAY'), PtrV('HAY', Lin.atom('hsize')) if shape['end'] else IntV(64, Lin.atom('hsize'), 'u'), PtrV('NEEDLE0'), IntV(64, ZERO, 'u')]
+        if shape['mode'] is not None:
+            b_ = int_bits(f.params[4]['ty']) or 32
+            args.append(I.fresh_int(st, b_, 'mode', hi=1))
+        outs = I.run(I.start(f, args, st))
+        rets = [o for o in outs if o.kind == 'ret']
+        if rets and all(isinstance(o.val, PtrV) and o.val.obj is None for o in rets) and all(o.kind in ('ret', 'backedge') for o in outs):
+            r = True
+        elif any(isinstance(o.val, PtrV) and o.val.obj is not None for o in rets):
+            r = False
+    except Exception:
+        r = None
+    _SHAPE_CACHE[key] = r
+    return r
 
 
 class PartHooks(SliceHooks):
@@ -77,6 +152,34 @@ class PartHooks(SliceHooks):
                 st.flags['match'] = (hay.obj, hay.off + Lin.atom(k), nlen)
                 if mt1:
                     st.ev('mhit', inst, args[2])        # this unit was found in the set searched
+                conts.append((st, PtrV(hay.obj, hay.off + Lin.atom(k), None)))
+            conts.append((s2, NULL))
+            return conts
+        shape = search_core_shape(self.m, I.F, name) if I.F is not None else None
+        if shape is not None and isinstance(args[0], PtrV) and isinstance(args[3], IntV):
+            # a substring search of another name (the scan extracted into a shared helper): the same symbol as find_cs / find_ci,
+            # except that a helper which answers "not found" for an empty needle itself is not asked about one
+            hay = args[0]
+            if shape['end']:
+                hl = (args[1].off - hay.off) if isinstance(args[1], PtrV) and args[1].obj == hay.obj and hay.obj is not None else None
+            else:
+                hl = I.as_u(st, args[1]) if isinstance(args[1], IntV) else None
+            nlen = I.as_u(st, args[3])
+            conts = []
+            if rejects_empty_needle(self.m, I.F, I.E, name, shape) is True:
+                s0 = I.fork(st)
+                if s0.assume_eq0(nlen):
+                    conts.append((s0, NULL))
+                if not st.assume_ge0(nlen - 1):
+                    return conts
+            st.ev('search', inst, hay, hl, args[2], nlen, 'shape', 'needle')
+            if hay.obj is None or hl is None:
+                return conts + [(st, I.fresh_ptr(st, 'match', maynull=True))]
+            s2 = I.fork(st)
+            k = I.fresh('k')
+            st.rng[k] = (0, MAXLEN)
+            if st.assume_ge0(hl - Lin.atom(k) - nlen):
+                st.flags['match'] = (hay.obj, hay.off + Lin.atom(k), nlen)
                 conts.append((st, PtrV(hay.obj, hay.off + Lin.atom(k), None)))
             conts.append((s2, NULL))
             return conts
